@@ -25,7 +25,7 @@ MUST_REACH = ["shape:extreme_aspect", "pattern:simple", "pattern:repeat", "patte
 C = 1e3
 GAP_CLAUSES = {"U_orthonormal", "V_orthonormal", "U_orthonormal_range", "V_orthonormal_range", "reconstruction", "eckart_young"}
 
-PATTERNS = ["simple", "geometric", "graded_wide", "cluster", "repeat2", "repeat3", "all_equal", "zeros1", "zeros2", "zeros_many", "rank1",
+PATTERNS = ["simple", "geometric", "graded_mid", "graded_wide", "cluster", "repeat2", "repeat3", "all_equal", "zeros1", "zeros2", "zeros_many", "rank1",
             "mixed_repeat_zero", "zero_matrix", "unitary", "identity", "scaled_unitary"]
 
 
@@ -130,6 +130,9 @@ def _pattern_svals(rng, pat, N):
         s = gen.spectrum("simple", N, rng, 10.0)
     elif pat == "geometric":
         s = gen.spectrum("geometric", N, rng, float(rng.choice([1e2, 1e4])))
+    elif pat == "graded_mid":
+        # condition 1e5 .. 3e6: far from rank-deficient, but squared (Gram-matrix shortcuts) it eats half of the digits
+        s = gen.spectrum("geometric", N, rng, float(rng.choice([1e5, 1e6, 3e6])))
     elif pat == "graded_wide":
         # well separated values over 8 .. 12 orders of magnitude: the small ones are legitimate data, not round-off
         s = gen.spectrum("geometric", N, rng, float(rng.choice([1e8, 1e10, 1e12])))
